@@ -70,6 +70,26 @@ def sim_programs(outdir):
     return progs
 
 
+_DSTATE = re.compile(r'^State \d+:', re.M)
+
+
+def dump_programs(path, maxins):
+    """the `prog` of every complete file (all instruction lines written, no class pending) in a TLC -dump file"""
+    with open(path) as f:
+        text = f.read()
+    progs = []
+    for block in _DSTATE.split(text)[1:]:
+        i = block.find('/\\ prog = ')
+        j = block.find('\n/\\ st = ')
+        g = block.find('\n/\\ gen = ')
+        if min(i, j, g) < 0:
+            raise MachineryError('cannot parse a state of ' + path)
+        gen = block[g:]
+        if re.search(r'\bn \|-> %d,' % maxins, gen) and 'cls |-> ""' in gen:
+            progs.append(tlc.tla_value(' '.join(block[i + 10:j].split())))
+    return progs
+
+
 def tidy(prog):
     """cut a file written up to the depth bound after its last instruction line and close an open block"""
     last = max((i for i, ln in enumerate(prog) if ln['l'] == 'ins'), default=-1)
